@@ -168,6 +168,21 @@ def make_classes():
                                     SelfResetter, Backend, Shadowy, Plugin)}
 
 
+def _clear_all(k):
+    """The documented spellings of 'clear everything': no argument, the default passed explicitly, by position or name."""
+    if k % 3 == 0:
+        return oracles.outcome(singleton.clear_true_singleton)
+    if k % 3 == 1:
+        return oracles.outcome(singleton.clear_true_singleton, None)
+    return oracles.outcome(singleton.clear_true_singleton, cls=None)
+
+
+def _clear_one(k, cls):
+    if k % 2:
+        return oracles.outcome(singleton.clear_true_singleton, cls=cls)
+    return oracles.outcome(singleton.clear_true_singleton, cls)
+
+
 class _Ref:
     """Model entry that does NOT keep the instance alive (the registry itself must)."""
 
@@ -257,7 +272,7 @@ def run_history(ops, keep_refs=True):
         elif kind == "clear":
             clears += 1
             cname = op["c"]
-            res = oracles.outcome(singleton.clear_true_singleton, classes[cname])
+            res = _clear_one(k, classes[cname])
             if res[0] != "ok":
                 viol(f"clear:raised:{res[1].__name__}" + ("" if cname in model else ":absent_entry"),
                      f"clear_true_singleton({cname}) raised", k)
@@ -265,7 +280,7 @@ def run_history(ops, keep_refs=True):
             model.pop(cname, None)
         else:
             clears += 1
-            res = oracles.outcome(singleton.clear_true_singleton)
+            res = _clear_all(k)
             if res[0] != "ok":
                 viol(f"clear_all:raised:{res[1].__name__}", "clear_true_singleton() raised", k)
                 break
@@ -325,7 +340,7 @@ def run_history_norefs(ops):
                 res = None
         elif kind == "clear":
             clears += 1
-            r = oracles.outcome(singleton.clear_true_singleton, classes[op["c"]])
+            r = _clear_one(k, classes[op["c"]])
             if r[0] != "ok":
                 found.append((f"clear:raised:{r[1].__name__}" + ("" if op["c"] in model else ":absent_entry"),
                               f"op #{k} {op}: clear_true_singleton({op['c']}) raised"))
@@ -333,7 +348,7 @@ def run_history_norefs(ops):
             model.pop(op["c"], None)
         else:
             clears += 1
-            r = oracles.outcome(singleton.clear_true_singleton)
+            r = _clear_all(k)
             if r[0] != "ok":
                 found.append((f"clear_all:raised:{r[1].__name__}", f"op #{k} {op}: clear_true_singleton() raised"))
                 break
